@@ -26,6 +26,43 @@ type tokCase struct {
 	HdrAlg    string `json:"header_alg,omitempty"`
 }
 
+// dateLimits are numeric date values at and around representation limits; past: the instant lies before now.
+var dateLimits = []struct {
+	note, raw string
+	past      bool
+}{
+	{"2^63-1024 (largest float64 below 2^63)", "9223372036854774784", false},
+	{"9.2233720368e18", "9.2233720368e18", false},
+	{"9.223372e18", "9.223372e18", false},
+	{"max int64", "9223372036854775807", false},
+	{"2^63", "9223372036854775808", false},
+	{"2^63 as float", "9.223372036854775808e18", false},
+	{"2^64", "18446744073709551616", false},
+	{"2^63-62135596800 (first second beyond time.Time)", "9223371974719179008", false},
+	{"9.22337198e18 (beyond time.Time)", "9.22337198e18", false},
+	{"9.22337197e18 (fits time.Time)", "9.22337197e18", false},
+	{"2^62", "4611686018427387904", false},
+	{"2^53+1", "9007199254740993", false},
+	{"2^63-70275051008 (fits time.Time)", "9223371966579724800", false},
+	{"year 10000", "253402300800", false},
+	{"last second of year 9999", "253402300799.0", false},
+	{"2^32", "4294967296", false},
+	{"2^31", "2147483648", false},
+	{"2^31 as float", "2.147483648e9", false},
+	{"-2^31-1", "-2147483649", true},
+	{"zero time.Time plus 1s", "-62135596799", true},
+	{"zero time.Time (year 1)", "-62135596800", true},
+	{"zero time.Time as float", "-6.21355968e10", true},
+	{"zero time.Time minus 1s", "-62135596801", true},
+	{"-2^53-1", "-9007199254740993", true},
+	{"-2^63+1024", "-9223372036854774784", true},
+	{"-9.2233720368e18", "-9.2233720368e18", true},
+	{"min int64", "-9223372036854775808", true},
+	{"-2^64", "-18446744073709551616", true},
+	{"negative zero", "-0", true},
+	{"-0.0", "-0.0", true},
+}
+
 // jobj renders an object with members in the given order (k1, v1, k2, v2, ...); duplicates allowed.
 func jobj(kv ...any) []byte {
 	var sb strings.Builder
@@ -77,11 +114,12 @@ func signable(alg string, priv any) bool {
 }
 
 type gen struct {
-	rng  *rand.Rand
-	inst *authInst
-	ks   *keySet
-	w    *world
-	out  []tokCase
+	rng    *rand.Rand
+	inst   *authInst
+	ks     *keySet
+	w      *world
+	out    []tokCase
+	issuer string // issuer owning ks when the instance selects the key set by token issuer
 }
 
 func (g *gen) pick(s []string) string { return s[g.rng.IntN(len(s))] }
@@ -158,7 +196,7 @@ func (g *gen) claims(small bool) map[string]any {
 	s := &g.inst.Spec
 	now := time.Now().Unix()
 	c := map[string]any{
-		"iss": g.pick(s.Issuers),
+		"iss": g.ownIssuer(),
 		"sub": fmt.Sprintf("user-%d", g.rng.IntN(100000)),
 		"exp": now + 3600, "nbf": now - 120, "iat": now - 120,
 	}
@@ -192,6 +230,13 @@ func (g *gen) claims(small bool) map[string]any {
 		}
 	}
 	return c
+}
+
+func (g *gen) ownIssuer() string {
+	if g.issuer != "" {
+		return g.issuer
+	}
+	return g.pick(g.inst.Spec.Issuers)
 }
 
 func cloneClaims(c map[string]any) map[string]any {
@@ -323,6 +368,20 @@ func (g *gen) catalogue(k *keyEntry) {
 	} {
 		withClaim("time-iat", "iat "+x.note, x.canonical, x.attack, set("iat", x.v))
 	}
+	// numeric dates at and around the limits of their representations (int64 seconds; time.Time counts seconds from
+	// year 1, so unix seconds above 2^63-62135596800 do not fit; -62135596800 is the zero time.Time; float64 has a
+	// resolution of 1024 s near 2^63), as integers and as floats. Soundness only (a parser may refuse any of them).
+	for _, x := range dateLimits {
+		withClaim("time-limits", "exp "+x.note, false, x.past, set("exp", json.RawMessage(x.raw)))
+		withClaim("time-limits", "nbf "+x.note, false, !x.past, set("nbf", json.RawMessage(x.raw)))
+		withClaim("time-limits", "iat "+x.note, false, false, set("iat", json.RawMessage(x.raw)))
+	}
+	withClaim("time-limits", "exp and nbf just below 2^63", false, true, func(c map[string]any) {
+		c["exp"], c["nbf"] = json.RawMessage("9223372036854774784"), json.RawMessage("9223372036854773760")
+	})
+	withClaim("time-limits", "exp, nbf and iat at the zero time.Time", false, true, func(c map[string]any) {
+		c["exp"], c["nbf"], c["iat"] = json.RawMessage("-62135596800"), json.RawMessage("-62135596800"), json.RawMessage("-62135596800")
+	})
 	withClaim("time-both", "exp and nbf in the past", true, true, func(c map[string]any) { c["exp"] = now - 3600; c["nbf"] = now - 7200 })
 	withClaim("time-both", "exp and nbf in the future", true, true, func(c map[string]any) { c["exp"] = now + 7200; c["nbf"] = now + 3600 })
 	withClaim("time-both", "nbf absent, exp in the past", true, true, func(c map[string]any) { c["exp"] = now - 3600; delete(c, "nbf") })
